@@ -19,6 +19,7 @@ CASE_TIMEOUT = 300
 BATCH_SIZE = {'quick': 1, 'thorough': 1}
 REQUIRED_COUNTERS = ['trees', 'constructions', 'drop_level_checks',
                      'drop_level_on_unserialised_trees',
+                     'malformed_tried_through_file_or_string_routes',
                      'leaf_pair_sets_checked', 'malformed_rejected',
                      'malformed_label_tables_rejected',
                      'malformed_cellless_rejected']
@@ -363,9 +364,43 @@ def check_tree(ctx, model, rng, work):
     variants += [(n, b, True) for n, b in
                  malformed_variants(model, bare, rng)
                  if n != 'cell-in-two-leaves']
-    for name, bad, cellless in variants:
+    def build(bad, route):
+        if route == 'dict':
+            return TaxonomyTree(data=bad)
+        txt = json.dumps(bad)
+        if route == 'from_str':
+            return TaxonomyTree.from_str(txt)
+        if route == 'from_json_file':
+            jp = work / 'malformed.json'
+            jp.write_text(txt)
+            try:
+                return TaxonomyTree.from_json_file(jp)
+            finally:
+                jp.unlink()
+        hp = work / 'malformed_stats.h5'
+        import h5py
+        with h5py.File(hp, 'w') as dst:
+            dst.create_dataset('taxonomy_tree', data=txt.encode('utf-8'))
         try:
-            bt = TaxonomyTree(data=bad)
+            return TaxonomyTree.from_precomputed_stats(hp)
+        finally:
+            hp.unlink()
+    routes = ['dict', 'from_str', 'from_json_file',
+              'from_precomputed_stats']
+    for vi, (name, bad, cellless) in enumerate(variants):
+        # every variant through the dict constructor, and through one of
+        # the file / string entry points in turn
+        route = routes[vi % 4]
+        try:
+            json.dumps(bad)
+        except TypeError:
+            route = 'dict'           # (non-string keys cannot be serialised)
+        if name == 'non-string-node':
+            route = 'dict'
+        if route != 'dict':
+            ctx.bump('malformed_tried_through_file_or_string_routes')
+        try:
+            bt = build(bad, route)
         except Exception:
             ctx.bump('malformed_rejected')
             if cellless:
@@ -380,7 +415,8 @@ def check_tree(ctx, model, rng, work):
                                   check_cells=not cellless)
             continue
         ctx.V(f'C10:malformed-accepted[{name}'
-              f'{",no-cells" if cellless else ""}]',
+              f'{",no-cells" if cellless else ""}'
+              f'{"" if route == "dict" else "," + route}]',
               f'{json.dumps(bad, default=str)[:900]}')
 
 
